@@ -117,7 +117,8 @@ def check_state(spec, hosts, slots, glob):
     return None
 
 
-def oracle(line, out):
+def oracle_full(line, out):
+    """first violated clause of the property on this history, with the details"""
     t = line.split(" ")
     if out in ("bad-op", "config-error"):
         return None
@@ -168,6 +169,16 @@ def oracle(line, out):
                     nst = hosts[h][4][p]
                     if pst == "O" and now > du and nst[0] == "O" and nst[3] == du:
                         return "host %d proc %d still disabled at %d after trigger past %d%s" % (h, p, now, du, where)
+            # --- a backend that lets a connect() hang past connect-timeout has failed:
+            #     it leaves the rotation for its disable-time like one that refuses
+            for s, c in enumerate(prev_slots):
+                if c is None or c[2] != ST_DELAYED or c[0] < 0 or c[1] < 0:
+                    continue
+                sp = spec[c[0]]
+                if sp[2] and now - c[10] > sp[2] and sp[5] != "l":
+                    nst = hosts[c[0]][4][c[1]]
+                    if nst[0] != "O" or nst[3] < now:
+                        return "connect timeout on host %d proc %d did not take it out of rotation%s" % (c[0], c[1], where)
             # --- no request is left hanging past a configured timeout
             for s, c in enumerate(slots):
                 if c is None:
@@ -233,8 +244,10 @@ def oracle(line, out):
                 body = r.split("=fin")[1]
                 code = int(body.rstrip("st"))
                 if "s" in body:
-                    if code != 200:
-                        return "started response finished with status %d%s" % (code, where)
+                    # 't' = response was already under way when the backend failed: the
+                    # connection is aborted, the status line is history
+                    if code != 200 and "t" not in body:
+                        return "complete response finished with status %d%s" % (code, where)
                 elif code < 500 and code != 400:
                     return "request finished without backend response but status %d%s" % (code, where)
             elif r.endswith("=err"):
@@ -244,6 +257,22 @@ def oracle(line, out):
             return "%d connect() attempts in one event (bound %d)%s" % (nd, lim, where)
         prev_hosts, prev_slots, prev_glob = hosts, slots, glob
     return None
+
+
+_num = None
+
+
+def oracle(line, out):
+    """verdict with the numbers blanked, so that one defect is one finding
+    (replay prints the detailed message)"""
+    global _num
+    v = oracle_full(line, out)
+    if not v:
+        return None
+    if _num is None:
+        import re
+        _num = re.compile(r"\d+")
+    return _num.sub("N", v.split(" (op ")[0])
 
 
 def classify(line, out):
@@ -266,14 +295,13 @@ def classify(line, out):
                 tags.add("fin" + r.split("=fin")[1])
             elif r.endswith("=wait"):
                 pass
-            else:
-                tags.add(r[:1] if r[0] in "ETWC" else r)
+            elif r[0] in "ETC":
+                tags.add(r[:1])
         d = st[k + 1:]
         if ",PO" in d:
-            tags.add("O")
-        if ".1.2." in d:
-            pass
-    tags.add("d%d" % min(nd // 4, 3))
+            tags.add("O")          # some backend out of rotation
+    if nd > len(t) - 5:
+        tags.add("retry")          # more connect() calls than events: fail-over happened
     kinds = "".join(sorted(set(h.split(".")[5] for h in t[4].split("/"))))
     return "gw:b%s:w%s:h%d%s:%s" % (t[1], t[2], min(len(t[4].split("/")), 3), kinds, "+".join(sorted(tags)))
 
@@ -318,9 +346,21 @@ def with_script(op, sc):
     return op + ("." + sc if sc else "")
 
 
-def rnd_op(rng, nslots, faulty=True):
+def rnd_op(rng, nslots, faulty=True, busy=None):
     x = rng.random()
     s = rng.randrange(nslots)
+    if busy is not None:
+        # `busy` = slots that were started and not aborted since (a guess: the
+        # request may have finished); aim arrivals at free slots, events at busy ones
+        free = [i for i in range(nslots) if i not in busy]
+        if x < 0.30 and free and rng.random() < 0.85:
+            s = rng.choice(free)
+        elif x >= 0.30 and busy and rng.random() < 0.85:
+            s = rng.choice(sorted(busy))
+        if x < 0.30:
+            busy.add(s)
+        elif 0.82 <= x < 0.90:
+            busy.discard(s)
     if x < 0.30:
         return with_script("a%d.%d" % (s, rng.randrange(12)), rnd_script(rng, faulty))
     if x < 0.62:
@@ -337,7 +377,8 @@ def gen_random(rng, n, maxops, faulty=True):
     out = []
     for _ in range(n):
         nslots = rng.choice([1, 2, 3, 3, 4, 5, 6])
-        ops = [rnd_op(rng, nslots, faulty) for _ in range(rng.randint(1, maxops))]
+        busy = set() if rng.random() < 0.8 else None
+        ops = [rnd_op(rng, nslots, faulty, busy) for _ in range(rng.randint(1, maxops))]
         out.append("gw %d %d %d %s %s" % (rng.randrange(4), 1 if rng.random() < 0.15 else 0, nslots,
                                          rnd_hosts(rng), " ".join(ops)))
     return out
@@ -425,9 +466,9 @@ def run(ctx):
     rng = ctx.rng
     streams = [
         ("gw(hand-written + exhaustive small scope)", HAND + gen_exhaustive(2 if q else 3)),
-        ("gw(fault scenarios: refuse/close/hang/timeout/abort/return)", gen_scenarios(rng, 4000 if q else 40000)),
-        ("gw(random histories, healthy backends)", gen_random(rng, 1500 if q else 15000, 30, False)),
-        ("gw(random histories, scripted faults)", gen_random(rng, 5000 if q else 50000, 40, True)),
+        ("gw(fault scenarios: refuse/close/hang/timeout/abort/return)", gen_scenarios(rng, 10000 if q else 60000)),
+        ("gw(random histories, healthy backends)", gen_random(rng, 3000 if q else 20000, 30, False)),
+        ("gw(random histories, scripted faults)", gen_random(rng, 12000 if q else 80000, 40, True)),
     ]
     for name, lines in streams:
         for l in lines:
@@ -464,7 +505,7 @@ def replay_line(ctx, rep):
             if x != y:
                 print("first difference at step %d:\n  impl : %s\n  model: %s" % (i, x, y))
                 break
-    v = oracle(rep["input"], o[0]) if o else "crash"
+    v = oracle_full(rep["input"], o[0]) if o else "crash"
     print("oracle:", v)
     if v or (o != m):
         print("VIOLATION property=%s replay=%s" % (ctx.pid, "(replayed)"))
